@@ -46,6 +46,17 @@ def run(prog):
         raise CheckerError("EC: Some edge of the clause iterator not found")
     start = some[0]
 
+    # private helpers that put a clause on a watch list (a push onto a row selected by a literal's label)
+    watch_helpers = set()
+    for g in prog.lib_fns:
+        if g.impl_self == UP and g is not fn and any(bk["term"]["k"] == "call" for bk in g.blocks):
+            for c2 in g.terms.calls:
+                if c2.callee.name == "push" and len(c2.args) == 2:
+                    r_ = strip(c2.args[0])
+                    if (r_[0] == "call" and r_[1].name in ("index", "index_mut") and "label(" in show(r_[2][1])) or \
+                            (r_[0] == "index" and "label(" in show(r_[2])):
+                        watch_helpers.add(g.name)
+
     def is_clause(t):
         s = show(strip(t))
         return s.endswith("as Some).0.1") and "next" in s
@@ -54,6 +65,8 @@ def run(prog):
         c = strip(c)
         if mir.is_call(c, "is_empty") and is_clause(c[2][0]):
             return int(n == 0)
+        if mir.is_call(c, "len") and is_clause(c[2][0]):
+            return n          # `match c.len() { 0 => .., 1 => .., _ => .. }` switches on the length itself
         if isinstance(c, tuple) and c[0] == "bin" and c[1] in ("Eq", "Ne", "Lt", "Le", "Gt", "Ge"):
             a, b = strip(c[2]), strip(c[3])
             def val(x):
@@ -77,6 +90,9 @@ def run(prog):
             eff = list(eff)
             for cs in [c for c in te.calls if c.bb == b]:
                 nm = cs.callee.name
+                if cs.callee.local and nm in watch_helpers:
+                    eff.append(("watch", "via %s" % nm, cs.line))
+                    continue
                 if nm == "push" and len(cs.args) == 2:
                     recv = strip(cs.args[0])
                     if wl_row(cs.args[0], fn):
